@@ -27,13 +27,19 @@ META = {
             "for bit; and one driver generic in a_real built as float, double and long double with ASan+UBSan: a_tf_init/set_num/"
             "set_den/iter/zero (delay lines pre-filled with 777 in one pool with guard bytes, so 'starts from zero state' and a "
             "clear of the wrong size are observable), a_lpf/a_hpf init/iter/zero on dyadic data whose every intermediate fits binary32 "
-            "must print exactly the difference equations' values in all three builds; a_lpf_gen/a_hpf_gen (pi) within 1e-5 + 1e-6.",
+            "must print exactly the difference equations' values in all three builds; a_lpf_gen/a_hpf_gen (pi) within 1e-5 + 1e-6. "
+            "LOOP TIE (harness/C16/TieLoop1.v, 6 theorems re-proved on every run): a_tf_iter, a_tf_zero, a_tf_set_num, a_tf_set_den, "
+            "a_tf_init and the a_real_push_fore they call are regenerated from the current sources with the two dot loops as "
+            "Fixpoints (tools/c2arr.py; the members of a_tf read are inputs, those written are results) and proved equal to "
+            "tf_iter, tf_run (one call per sample, every input sequence), tf_zero and tf_init for every NumOps instance with "
+            "zero = 0 and EVERY pair of orders below 2^32 (the orders are unsigned int), delay lines as long as the coefficient "
+            "vectors.",
     "note": "Trusted: Coq kernel/vm_compute with primitive floats; real-number axioms listed by Print Assumptions; the "
             "'same term, different NumOps instance' argument; hand transcription coq/C16/FilterDefs.v validated bit for bit on "
-            "the generated cases only; memmove modelled as list shift. Float saturation of gen for extreme fc*ts is checked on a grid, not proved. The glue runs "
+            "the generated cases only; memmove modelled as list shift (read all, then write), memset 0 as writing the real 0; the translators (tools/c2coq.py, tools/c2arr.py) are trusted to read the C right - their output is proved equal to the model, not to the C. Float saturation of gen for extreme fc*ts is checked on a grid, not proved. The glue runs "
             "(tools/vglue.py, harness/glue/) are differential tests on generated inputs, not theorems; the float and long double builds "
             "are not modelled in Rocq.",
-    "technique": "Rocq proof over R (list induction with explicit histories, nra, Coquelicot limits) + lpf/hpf regenerated from the headers by a translator and re-tied by conversion on every run, a_tf_iter/a_tf_zero unrolled for all orders 0..3 x 0..3 and proved equal to the list model + bit-exact primitive-float model vs C correspondence",
+    "technique": "Rocq proof over R (list induction with explicit histories, nra, Coquelicot limits) + lpf/hpf regenerated from the headers by a translator and re-tied by conversion on every run, a_tf_iter/zero/set_num/set_den/init regenerated with their loops as Fixpoints and proved equal to the model for every pair of orders, a_tf_iter/a_tf_zero unrolled for all orders 0..3 x 0..3 and proved equal to the list model + bit-exact primitive-float model vs C correspondence",
 }
 
 H = vlib.VERIF / "harness" / "C16"
@@ -178,6 +184,10 @@ def run(ctx):
     # third tie: a_tf_iter / a_tf_zero UNROLLED for every pair of orders 0..3 x 0..3 (a_real_push_fore of math.c inlined, delay lines
     # and coefficient vectors exactly sized) and proved equal to the list model for all contents
     ctx.translate_and_tie([("src/tf.c", (H / "tie_names.txt").read_text().split())], "GenTf", H / "TieTf.v", extra_sources=["src/math.c"])
+    # fourth tie: a_tf_iter / a_tf_zero / a_tf_set_num / a_tf_set_den / a_tf_init with their loops as Fixpoints (tools/c2arr.py), proved
+    # equal to tf_iter / tf_run / tf_zero / tf_init for EVERY pair of orders (harness/C16/TieLoop1.v)
+    import varr
+    varr.arr_translate_and_tie(ctx, "C16")
     ctx.assumptions += ["binary64 rounding is not part of the theorems; integer-valued cases are compared with an exact rational reference",
                         "C built with gcc -O2 -ffp-contract=off"]
     cbin = ctx.cc("drv", [H / "drv.c"], repo_srcs=["tf.c", "math.c", "a.c"], mode="num", extra=["-fsanitize=address"])
